@@ -228,6 +228,15 @@ Section Isect.
     negb (eqb N (interval_intersection_width xmin1 xmax1 xmin2 xmax2) (zero N))
     && negb (eqb N (interval_intersection_width ymin1 ymax1 ymin2 ymax2) (zero N)).
 
+  (* repaired variant (fixes/C12-subdivision-closed-boxes-extent.diff): the boxes are
+     CLOSED rectangles — boxes that only touch, and boxes of zero width/height, intersect *)
+  Definition boxes_intersect_closed (b1 b2 : box) : bool :=
+    let '(xmin1, xmax1, ymin1, ymax1) := b1 in
+    let '(xmin2, xmax2, ymin2, ymax2) := b2 in
+    leb N (nmax N xmin1 xmin2) (nmin N xmax1 xmax2) && leb N (nmax N ymin1 ymin2) (nmin N ymax1 ymax2).
+  Definition box_extent (b : box) : K :=
+    let '(xmin, xmax, ymin, ymax) := b in nmax N (xmax - xmin) (ymax - ymin).
+
   (* exact bounding box of a quadratic (the non-cubic branch of
      bezier_bounding_box: end points + the root of the derivative when it is
      strictly inside (0,1)); rational, so the machine below runs in NumQ *)
@@ -306,13 +315,26 @@ Section Isect.
        true  = the proposed repair (/tmp/fixes/C12-subdivision-remove-while-iterating.diff):
                the list is not mutated, redundant pairs are marked and skipped *)
     Variable rm_fixed : bool.
+    (* false = pinned: open box overlap test (positive width in x and y), stop when both
+               box AREAS are < tol_deC;
+       true  = repaired (fixes/C12-subdivision-closed-boxes-extent.diff): closed boxes,
+               stop when both box EXTENTS are < ext *)
+    Variable bx_fixed : bool.
+    (* true = repaired (fixes/C12-subdivision-merge-duplicates.diff): one solution per
+       group of neighbouring parameter cells *)
+    Variable mg_fixed : bool.
     Variable bbox : list C -> box.       (* bezier_bounding_box *)
     Variables tol tol_deC : K.
+    Variable ext : K.                    (* the stopping length of the repaired variant (eff_extent) *)
     Variable bez1 : list C.              (* the ORIGINAL first curve: reported points are bez1(t1) *)
 
-    Definition boxes_ok (p : bpair) : bool := boxes_intersect (bbox (bp1 p)) (bbox (bp2 p)).
+    Definition boxes_ok (p : bpair) : bool :=
+      if bx_fixed then boxes_intersect_closed (bbox (bp1 p)) (bbox (bp2 p))
+      else boxes_intersect (bbox (bp1 p)) (bbox (bp2 p)).
     Definition small (p : bpair) : bool :=
-      ltb N (box_area (bbox (bp1 p))) tol_deC && ltb N (box_area (bbox (bp2 p))) tol_deC.
+      if bx_fixed
+      then ltb N (box_extent (bbox (bp1 p))) ext && ltb N (box_extent (bbox (bp2 p))) ext
+      else ltb N (box_area (bbox (bp1 p))) tol_deC && ltb N (box_area (bbox (bp2 p))) tol_deC.
 
     (* `for pair in pair_list:` — outer iterator index i over the (mutating) list l *)
     Fixpoint level_loop (fuel : nat) (delta : K) (l : list bpair) (i : nat) (st : lstate) : lstate :=
@@ -366,22 +388,66 @@ Section Isect.
       else level_loop (length l) (npow N half (k + 2)) l 0 (mkLS [] out seen).
 
     (* `while pair_list and k < maxits`, n = maxits - k; afterwards
-       `if k >= maxits: raise Exception` (also when the list emptied at k = maxits) *)
-    Fixpoint bi_levels (n k : nat) (l : list bpair) (out : list (K * K)) (seen : list C)
-      : ires (list (K * K)) :=
+       `if k >= maxits: raise Exception` (also when the list emptied at k = maxits).
+       hs = the half-widths 2*delta of the parameter cells of the reported pairs *)
+    Fixpoint bi_levels (n k : nat) (l : list bpair) (out : list (K * K)) (hs : list K) (seen : list C)
+      : ires (list (K * K) * list K) :=
       match n with
       | O => IException
       | S n' =>
           match l with
-          | [] => IOk out
+          | [] => IOk (out, hs)
           | _ => let st := level k l out seen in
-                 bi_levels n' (S k) (ls_new st) (ls_out st) (ls_seen st)
+                 bi_levels n' (S k) (ls_new st) (ls_out st)
+                           (hs ++ repeat (npow N half (k + 1)) (length (ls_out st) - length out))
+                           (ls_seen st)
           end
       end.
 
+    (* _merge_redundant_solutions *)
+    Definition sol := (K * K * K)%type.                 (* t1, t2, h *)
+    Definition sclose (f o : sol) : bool :=
+      let reach := #8 * (snd f + snd o) in
+      leb N (nabs N (fst (fst f) - fst (fst o))) reach && leb N (nabs N (snd (fst f) - snd (fst o))) reach.
+    Definition is_hit (f : sol) (g : list sol) : bool := existsb (sclose f) g.
+    Fixpoint merge_into (f : sol) (groups : list (list sol)) : list (list sol) :=
+      match groups with
+      | [] => [[f]]
+      | g :: r => if is_hit f g
+                  then (g ++ [f] ++ concat (filter (is_hit f) r)) :: filter (fun g' => negb (is_hit f g')) r
+                  else g :: merge_into f r
+      end.
+    Definition sol_resid2 (bez2 : list C) (f : sol) : K :=
+      cnorm2 N (csub N (bezier_point N bez1 (fst (fst f))) (bezier_point N bez2 (snd (fst f)))).
+    (* min(g, key=...): the first minimal element *)
+    Fixpoint best_of (bez2 : list C) (cur : sol) (g : list sol) : sol :=
+      match g with
+      | [] => cur
+      | f :: r => if ltb N (sol_resid2 bez2 f) (sol_resid2 bez2 cur) then best_of bez2 f r else best_of bez2 cur r
+      end.
+    Definition merge_solutions (bez2 : list C) (found : list sol) : list (K * K) :=
+      flat_map (fun g => match g with [] => [] | f :: r => [fst (best_of bez2 f r)] end)
+               (fold_left (fun gs f => merge_into f gs) found []).
+
     Definition bezier_intersections (maxits : nat) (bez2 : list C) : ires (list (K * K)) :=
-      bi_levels maxits 0 [mkBP bez1 bez2 half half] [] [].
+      match bi_levels maxits 0 [mkBP bez1 bez2 half half] [] [] [] with
+      | IOk (out, hs) => IOk (if mg_fixed then merge_solutions bez2 (combine out hs) else out)
+      | IAssert => IAssert | IValueErr => IValueErr | IException => IException
+      end.
   End Machine.
+
+  (* the stopping length of the repaired variant: ext0 = sqrt(tol_deC); with
+     rel_fixed (fixes/C12-subdivision-relative-resolution.diff) it is scaled by the size
+     of the curves when that is < 1 (never coarser than ext0, never finer than
+     eps40 = 2^-40 of the coordinate magnitude) *)
+  Definition eff_extent (rel_fixed : bool) (ext0 eps40 : K) (bbox : list C -> box) (bez1 bez2 : list C) : K :=
+    let b1 := bbox bez1 in let b2 := bbox bez2 in
+    let size := nmax N (box_extent b1) (box_extent b2) in
+    if rel_fixed && ltb N (zero N) size && ltb N size (one N) then
+      let coords (b : box) := let '(a, b', c, d) := b in [nabs N a; nabs N b'; nabs N c; nabs N d] in
+      let magnitude := lmax (coords b1 ++ coords b2) in
+      nmin N ext0 (nmax N (ext0 * size) (eps40 * magnitude))
+    else ext0.
 
   (* ---------------------------------------------------------------- *)
   (** * X.intersect(Y) *)
@@ -481,22 +547,38 @@ Section Isect.
           end
       end.
 
-    (* joint de-duplication: index j is removed when some EARLIER point
-       (removed or not) is within tol of point j *)
-    Fixpoint dedup_joint {A} (seen : list C) (l : list (C * A)) : list A :=
+    (* joint de-duplication: entry j is removed when some EARLIER entry (removed or not) is
+       "the same intersection".
+       jd_fixed = false (pinned): the same POINT of path1 within tol;
+       jd_fixed = true (fixes/C12-path-joint-dedup-same-place.diff): the same point AND the
+       same place on both paths: |T - T'| (or 1 - |T - T'|: T=0 and T=1 of a closed path) times
+       the path length < 10 tol + eps9 * length.  plen1/plen2 = path lengths, eps9 = 1e-9 (data) *)
+    Variable jd_fixed : bool.
+    Variables plen1 plen2 eps9 : K.
+    Definition jkey := (C * K * K)%type.            (* point, T1, T2 *)
+    Definition same_place (L Ta Tb : K) : bool :=
+      let d := nabs N (Ta - Tb) in
+      let d := nmin N d (nabs N (d - one N)) in
+      ltb N (d * L) (#10 * tol + eps9 * L).
+    Definition redundant (q p : jkey) : bool :=
+      cabs_lt (csub N (fst (fst q)) (fst (fst p))) tol
+      && (negb jd_fixed || (same_place plen1 (snd (fst q)) (snd (fst p)) && same_place plen2 (snd q) (snd p))).
+    Fixpoint dedup_joint {A} (seen : list jkey) (l : list (jkey * A)) : list A :=
       match l with
       | [] => []
       | (p, x) :: r =>
-          if existsb (fun q => cabs_lt (csub N q p) tol) seen then dedup_joint (seen ++ [p]) r
+          if existsb (fun q => redundant q p) seen then dedup_joint (seen ++ [p]) r
           else x :: dedup_joint (seen ++ [p]) r
       end.
+    Definition jkey_of (e : pent * pent) : jkey :=
+      (seg_point (snd (fst (fst e))) (snd (fst e)), fst (fst (fst e)), fst (fst (snd e))).
 
     Definition path_intersect (p1 : list (seg K)) (lens1 : list K) (p2 : list (seg K)) (lens2 : list K)
       : ires (list (pent * pent)) :=
       if path_eqb p1 p2 then IAssert
       else
         match collect p1 lens1 p2 lens2 (list_prod (enum p1) (enum p2)) with
-        | IOk l => IOk (dedup_joint [] (map (fun e => (seg_point (snd (fst (fst e))) (snd (fst e)), e)) l))
+        | IOk l => IOk (dedup_joint [] (map (fun e => (jkey_of e, e)) l))
         | e => e
         end.
   End PathIsect.
